@@ -11,7 +11,7 @@
    is the composition over an arbitrary chain of changes (see design.d/C15.md). *)
 Require Import List Arith Bool Lia.
 Require Import Raft.Quorum Raft.QuorumProofs Raft.RaftModel Raft.RaftSys Raft.RaftLog Raft.RaftInv Raft.RaftInvBase
-               Raft.RaftInvMain Raft.RaftRefine Raft.RaftCC Raft.RaftCCRefine.
+               Raft.RaftInvMain Raft.RaftRefine Raft.RaftCC Raft.RaftCCInv Raft.RaftCCRefine.
 Import ListNotations.
 
 Section CCSafety.
@@ -143,14 +143,17 @@ Section CCSafety.
     rewrite <- Hm in Hev.
     destruct (hK9 _ _ I id) as [H9 _]. unfold nd in H9. rewrite Hnid in H9.
     unfold exec_cc. set (c := node_cfg boot n).
-    destruct (match ev with EvRecv m => is_response (m_type m) && negb (member c (m_from m)) | _ => false end); [reflexivity|].
+    destruct (match ev with EvRecv m => is_response (m_type m) && negb (tracked c (m_from m)) | _ => false end); [reflexivity|].
     assert (Hk : firstn (n_commit n) (n_log (fst (fst (handle_cc id c ev n pend)))) = firstn (n_commit n) (n_log n)).
     { unfold handle_cc. destruct ev as [|p|m| |];
-        try (cbn [fst]; rewrite <- Hnid; apply (handle_keeps F HF (c_in c) (c_out c) s id _ I Hev)).
+        try (cbn [fst];
+             match goal with |- context [learner_ack ?cc ?e ?nn] =>
+               destruct (learner_ack_props cc e nn) as (_ & _ & LA & _); cbn zeta in LA; rewrite LA end;
+             rewrite <- Hnid; apply (handle_keeps F HF (c_in c) (c_out c) s id _ I Hev)).
       assert (Hp : forall q, firstn (n_commit n) (n_log (propose q n)) = firstn (n_commit n) (n_log n)).
       { intros q. unfold propose. destruct (n_role n); try reflexivity. cbn [set_log n_log]. apply firstn_app_le. exact H9. }
       destruct (n_role n) eqn:Er; cbn [fst]; try reflexivity.
-      destruct (negb (member c id)); cbn [fst]; [reflexivity|].
+      destruct (negb (tracked c id)); cbn [fst]; [reflexivity|].
       destruct (cc_of_payload p) as [op|]; cbn [fst]; [|apply Hp].
       destruct ((n_commit n <? pend) || joint c && negb match op with CcLeave => true | _ => false end
                 || negb (joint c) && match op with CcLeave => true | _ => false end); cbn [fst]; apply Hp. }
